@@ -265,4 +265,36 @@ theorem c11_location_ids_resolve {ctx : EncCtx} {l : RLoc} {i k : Nat} (hk : l.i
       simpa using this
   · cases h
 
+/-- every entry of the location table a save emits carries its index (the hypothesis `hall` of
+`c11_location_ids_resolve` holds for the table the rebuild produces) -/
+theorem c11_emitted_locations_carry_their_index {cfg : RichCfg} {secs : List RSection} {order : Option (List Nat)}
+    {locs : List RLoc} {ids : List (Nat × Nat)} (h : rebuildMrgn cfg secs order = .ok (locs, ids)) :
+    ∀ t ∈ locs, t.idx.isSome = true := by
+  unfold rebuildMrgn at h
+  split at h
+  · rename_i table _
+    split at h
+    · simp at h
+    · rename_i hno
+      simp only at h
+      split at h
+      · simp at h
+      · simp only [Except.ok.injEq, Prod.mk.injEq] at h
+        obtain ⟨rfl, _⟩ := h
+        intro t ht
+        rcases List.mem_append.mp ht with ht | ht
+        · have : ¬ (table.any (·.idx.isNone) = true) := hno
+          rw [List.any_eq_true] at this
+          cases hti : t.idx with
+          | some _ => rfl
+          | none => exact absurd ⟨t, ht, by simp [hti]⟩ this
+        · obtain ⟨p, hp, rfl⟩ := List.mem_map.mp ht
+          obtain ⟨q, _, hq⟩ := List.mem_filterMap.mp hp
+          obtain ⟨l, r⟩ := q
+          simp only at hq
+          split at hq
+          · cases hq; rfl
+          · cases hq
+  · simp at h
+
 end Richchk.Props.C11
